@@ -127,7 +127,7 @@ class Sign(Engine):
                     x['script'] = gen.rhex(rng, rng.randint(0, 6))
                 tx['vout'] = [gen.gen_txout(rng) for _ in range(nout)]
                 tx['wit'] = None
-                ht = rng.choice([1, 2, 3, 0x81, 0x82, 0x83]) if rng.random() < 0.75 else rng.choice([0, 4, 0x7f, 0xff, 0x80, 0x1f, 0x41, 0x9f, 0x84, 0x20, 0xe3])
+                ht = rng.choice([1, 2, 3, 0x81, 0x82, 0x83]) if rng.random() < 0.75 else (rng.choice([0, 4, 0x7f, 0xff, 0x80, 0x1f, 0x41, 0x9f, 0x84, 0x20, 0xe3, 0x22, 0x23, 0x42, 0x63, 0xa2, 0xc3]) if rng.random() < 0.5 else rng.randrange(256))
                 S({'op': 'spend', 'template': tmpl, 'keys': [rng.randrange(16) for _ in range(nk)], 'm': m, 'tx': tx, 'input': rng.randrange(nin),
                    'hashtype': ht, 'mixed_ht': [rng.choice([1, 2, 3, 0x81, 0x82, 0x83]) for _ in range(3)] if rng.random() < 0.15 else None,
                    'nonces': ['%064x' % self.gen_nonce(rng) for _ in range(8)], 'mutable': rng.random() < 0.5,
